@@ -15,6 +15,7 @@ import (
 func init() {
 	env.Register("C02_Struct", C02_Struct)
 	env.Register("C02_Bytes", C02_Bytes)
+	env.Register("C02_Mutate", C02_Mutate)
 }
 
 type c02Env struct {
@@ -31,15 +32,22 @@ type c02Env struct {
 }
 
 // committee of n members, ids 1..n, symbolic weights whose total fits in 64 bits
-func newC02Env(n int) *c02Env {
+func newC02Env(n int) *c02Env { return newC02EnvW(n, nil) }
+
+// fixed != nil: concrete weights (harnesses about parsing, where symbolic quorum arithmetic only costs solver time)
+func newC02EnvW(n int, fixed []uint64) *c02Env {
 	e := &c02Env{reg: stub.NewRegistry()}
 	e.ids = make([]byte, n)
 	e.w = make([]uint64, n)
 	members := make([]interfaces.CommitteeMember, n)
 	for i := 0; i < n; i++ {
 		e.ids[i] = byte(i + 1)
-		e.w[i] = env.NondetU64("w")
-		env.Assume(env.Not(env.AddOverflows(e.total, e.w[i])))
+		if fixed != nil {
+			e.w[i] = fixed[i]
+		} else {
+			e.w[i] = env.NondetU64("w")
+			env.Assume(env.Not(env.AddOverflows(e.total, e.w[i])))
+		}
 		e.total += e.w[i]
 		members[i] = interfaces.CommitteeMember{Id: primitives.MemberId{e.ids[i]}, Weight: primitives.MemberWeight(e.w[i])}
 	}
@@ -217,8 +225,12 @@ func C02_Bytes() {
 	if p != 0 || err != nil {
 		return
 	}
-	// accepted: the parsed view of the bytes must satisfy the reference predicate
 	env.Reach("C02.bytes_accepted")
+	c02CheckParsed(e, proof, block, soft)
+}
+
+// c02CheckParsed: an accepted proof, whatever produced its bytes: the parsed view must satisfy the reference predicate
+func c02CheckParsed(e *c02Env, proof []byte, block *stub.Block, soft bool) {
 	bp := protocol.BlockProofReader(proof)
 	ref := bp.BlockRef()
 	env.Assert("C02.type", ref.MessageType() == protocol.LEAN_HELIX_COMMIT)
@@ -242,4 +254,52 @@ func C02_Bytes() {
 	f := env.IteU64(e.total == 0, 0, (e.total-1)/3)
 	env.Assert("C02.weight_strict", env.Implies(env.Not(soft), weight >= env.IteU64(e.total == 0, 1, e.total-f)))
 	env.Assert("C02.weight_soft", env.Implies(env.And(soft, e.total > 0), weight > f))
+}
+
+// C02_Mutate: a genuine COMMIT certificate (k signers with genuine signatures, genuine seed signature) in which one
+// 4-byte-aligned window at a symbolic position is replaced by arbitrary bytes: this reaches every length prefix and
+// field of the nested structure behind checks that random bytes never pass. No panic may escape (in particular not
+// from code that runs after the header checks), and acceptance implies the reference predicate on the parsed bytes.
+func C02_Mutate() {
+	k := env.Param("signers")
+	e := newC02EnvW(4, []uint64{1, 1, 1, 1})
+	soft := env.NondetBool("soft")
+	block := &stub.Block{H: 7, Tag: 0x21, RefTime: 5, ProposalOK: true}
+	prevBlock := &stub.Block{H: 6, RefTime: 4}
+	prevSeedSig := []byte{0x11, 0x22, 0x33, 0x44, 0x55, 0x66, 0x77, 0x88}
+	prevProof := (&protocol.BlockProofBuilder{RandomSeedSignature: prevSeedSig}).Build().Raw()
+	refB := &protocol.BlockRefBuilder{MessageType: protocol.LEAN_HELIX_COMMIT, InstanceId: e.instance, BlockHeight: block.H, View: 3, BlockHash: primitives.BlockHash{block.Tag}}
+	refRaw := refB.Build().Raw()
+	var nodes []*protocol.SenderSignatureBuilder
+	for j := 0; j < k; j++ {
+		id := []byte{e.ids[j]}
+		nodes = append(nodes, &protocol.SenderSignatureBuilder{MemberId: primitives.MemberId(id), Signature: e.reg.Sign(stub.KindConsensus, id, uint64(block.H), refRaw)})
+	}
+	seed := randomseed.CalculateRandomSeed(prevSeedSig)
+	seedSig := stub.GroupSeedSig(uint64(block.H), randomseed.RandomSeedToBytes(seed))
+	genuine := (&protocol.BlockProofBuilder{BlockRef: refB, Nodes: nodes, RandomSeedSignature: seedSig}).Build().Raw()
+	proof := make([]byte, len(genuine))
+	copy(proof, genuine)
+	w := env.Choice("window", len(proof)/4)
+	// the window as a little-endian 32-bit value: small (0..63), or within 64 of 2^32 (where 32-bit length and
+	// offset arithmetic wraps); values in between are outside this harness (bound)
+	v := env.NondetU32("w")
+	env.Assume(v < 64 || v >= 1<<32-64)
+	for i := 0; i < 4; i++ {
+		proof[4*w+i] = byte(v >> (8 * uint(i)))
+	}
+	var err error
+	p := env.Catch(func() {
+		err = e.worker.ValidateBlockConsensus(context.Background(), block, proof, prevBlock, prevProof, soft)
+	})
+	env.Assert("C02.no_panic.mutated", p == 0)
+	p2 := env.Catch(func() { GetMemberIdsFromBlockProof(proof) })
+	env.Assert("C02.ids_no_panic.mutated", p2 == 0)
+	if p != 0 || err != nil {
+		env.Reach("C02.mutate.rejected")
+		return
+	}
+	// (what acceptance implies is decided on structured proofs by C02_Struct; re-parsing the mutated bytes in the
+	// harness would square the number of paths)
+	env.Reach("C02.mutate.accepted")
 }
